@@ -170,4 +170,4 @@ def examples(tier):
     ]
 
 
-SUBS = [Sub('filters', oracle, strategy=cases, budget={'quick': 12000, 'thorough': 200000}, examples=examples)]
+SUBS = [Sub('filters', oracle, strategy=cases, budget={'quick': 12000, 'thorough': 200000}, examples=examples, fuzz={'thorough': 20000})]
